@@ -121,6 +121,13 @@ def run_case(case, chooser=None, window=None):
         if window is not None:
             nw.world.points_on = True
             chooser.window = True
+        if extra == "self_closed":
+            # in the instant of stop() a connection ends itself (a frame with an impossible length): its wake-up request may or may not
+            # have been looked at when the I/O thread notices the stop (the I/O thread gets the CPU last)
+            for i in ready_at_stop:
+                s_ = sc.socks[idx[i]]
+                nw.deliver(s_.fs, sc.message(s_, "badlen"), run=False)
+            nw.world.low_kind = "_handle_connections"
         if extra == "stop_from_handler":
             # stop() is called from inside a request handler of the first application (a thread of that application)
             def stopping_handler(message):
@@ -139,7 +146,7 @@ def run_case(case, chooser=None, window=None):
         if window is not None:
             chooser.window = False
             nw.world.points_on = False
-        if extra == "bad_backlog":
+        if extra in ("bad_backlog", "self_closed"):
             nw.world.low_kind = None
         dpa_time = {}
         newcomers = []
@@ -196,6 +203,8 @@ def run_case(case, chooser=None, window=None):
                     dpa_time[i] = nw.world.now
                     continue
                 if reaction == "dpa_now" or (reaction == "dpa_later" and sec >= 1):
+                    if extra == "dwa_first" and states[i] == "waiting_dwa":
+                        sc.apply(("m", idx[i], "dwa"))      # the peer first answers the watchdog request that was outstanding, then the DPR
                     if sc.apply(("m", idx[i], "dpa")):
                         dpa_time[i] = nw.world.now
                         if i in queued:
@@ -220,6 +229,8 @@ def run_case(case, chooser=None, window=None):
         desc = f"{case}"
         # --- DPR to exactly the ready connections, cause REBOOTING; none when forced
         for i, c in idx.items():
+            if extra == "self_closed":
+                continue        # these connections ended themselves in the instant of stop(): only the end state is judged
             s = sc.socks[c]
             new = s.out[n_frames[i]:]
             dprs = [f for f in new if f.h.is_request and f.h.code == 282]
@@ -239,7 +250,7 @@ def run_case(case, chooser=None, window=None):
                     vs.append(("shutdown:connection-not-closed-after-its-DPA", f"{desc}: connection {i}"))
                 elif closes[0][0] < dpa_time[i]:
                     vs.append(("shutdown:connection-closed-before-its-DPA-arrived", f"{desc}: connection {i} closed at {closes[0][0] - t0}, DPA at {dpa_time[i] - t0}"))
-                elif closes[0][0] > dpa_time[i] + 2 and (closes[0][0] < t0 + wt or (extra or "").startswith("flood") or extra in ("together", "together_iolast")):
+                elif closes[0][0] > dpa_time[i] + 2 and (closes[0][0] < t0 + wt or (extra or "").startswith("flood") or extra in ("together", "together_iolast", "dwa_first")):
                     vs.append(("shutdown:connection-not-closed-promptly-after-its-DPA", f"{desc}: connection {i} DPA at {dpa_time[i] - t0}, closed at {closes[0][0] - t0}"))
             if i in ready_at_stop and not force and reaction == "never" and closes and closes[0][0] < t0 + wt:
                 vs.append(("shutdown:connection-closed-before-DPA-or-timeout", f"{desc}: connection {i} closed at {closes[0][0] - t0}, timeout {wt}"))
@@ -336,6 +347,12 @@ def all_cases(tier):
         for reac in ("dpa_now", "never"):
             for frc in (False, True):
                 cases.append((sts, reac, frc, 3, None, False, "stop_from_handler"))
+    for sts in (("waiting_dwa",), ("waiting_dwa", "ready"), ("ready", "waiting_dwa")):
+        for reac in ("dpa_now", "dpa_later"):
+            cases.append((sts, reac, False, 5, None, False, "dwa_first"))
+    for sts in (("ready",), ("ready", "ready"), ("waiting_dwa",)):
+        for frc in (True, False):
+            cases.append((sts, "never", frc, 2, None, False, "self_closed"))
     for nfl in (12, 50, 700):       # bursts of other sizes (a pipe drained in reads of 64 / 256 / 1024 / 4096 bytes loses a request at one of them)
         cases.append((("ready", "ready"), "dpa_now", False, 5, None, False, f"flood{nfl}"))
     cases.append((("ready", "ready"), "dpa_now", False, 5, None, False, "flood"))
